@@ -1,9 +1,9 @@
 package main
 
 import (
-	"os"
 	"fmt"
 	"go/token"
+	"os"
 	"sort"
 
 	"golang.org/x/tools/go/ssa"
